@@ -305,3 +305,74 @@ Proof.
     + apply Permutation_map. exact Pm.
     + rewrite <- E. rewrite map_fst_on_snd. exact Nd1.
 Qed.
+
+(* ---- NaN and the infinities are refused wherever they sit -------------------------------- *)
+Lemma canon_arr_ok_members : forall l t, canon (JArr l) = JOk t -> forall x, In x l -> exists a, canon x = JOk a.
+Proof.
+  intros l t H x Hx. rewrite canon_arr_eq in H. unfold wrap in H.
+  destruct (sequence (map canon l)) as [ps|e] eqn:E; [|discriminate].
+  apply sequence_ok in E. rewrite Forall_map in E. rewrite Forall_forall in E. exact (E x Hx).
+Qed.
+
+Lemma canon_obj_ok_members : forall m t, canon (JObj m) = JOk t -> forall kv, In kv m -> exists a, canon (snd kv) = JOk a.
+Proof.
+  intros m t H kv Hkv. rewrite canon_obj_eq in H. unfold canon_members in H.
+  destruct (key_scalar_dec _ (map (on_snd canon) m)) as [S|S];
+    [|rewrite (sort_members_nonscalar _ _ S) in H; discriminate].
+  rewrite (sort_members_scalar _ _ S) in H. unfold wrap in H.
+  destruct (sequence (map member_text (sort_members_spec (map (on_snd canon) m)))) as [ps|e] eqn:E; [|discriminate].
+  apply sequence_ok in E. rewrite Forall_map in E. rewrite Forall_forall in E.
+  assert (Hin : In (on_snd canon kv) (sort_members_spec (map (on_snd canon) m))).
+  { apply (proj2 (spec_sort_In _ _ _)). apply in_map. exact Hkv. }
+  destruct (E _ Hin) as [a Ha]. unfold member_text, on_snd in Ha. simpl in Ha.
+  destruct (canon (snd kv)) as [body|e]; [eexists; reflexivity|discriminate].
+Qed.
+
+Lemma canon_refuses_nonfinite_proof : forall v, nonfinite v -> forall t, canon v <> JOk t.
+Proof.
+  induction 1 as [r [Hr|[Hr|Hr]]|l x Hx Hn IH|m kv Hkv Hn IH]; intros t H.
+  - subst r. vm_compute in H. discriminate.
+  - subst r. vm_compute in H. discriminate.
+  - subst r. vm_compute in H. discriminate.
+  - destruct (canon_arr_ok_members l t H x Hx) as [a Ha]. exact (IH a Ha).
+  - destruct (canon_obj_ok_members m t H kv Hkv) as [a Ha]. exact (IH a Ha).
+Qed.
+
+(* ---- with distinct keys the order is strict (RFC 8785 3.2.3 on JSON objects proper) ------- *)
+Lemma StronglySorted_strengthen : forall (A : Type) (R R' : A -> A -> Prop) (l : list A),
+  StronglySorted R l -> NoDup l -> (forall a b, In a l -> In b l -> R a b -> a <> b -> R' a b) -> StronglySorted R' l.
+Proof.
+  induction 1 as [|a l Hs IH Hf]; intros Hn Himp; constructor.
+  - inversion Hn; subst. apply IH; auto. intros x y Hx Hy. apply Himp; right; assumption.
+  - inversion Hn as [|? ? Hnotin Hn']; subst. rewrite Forall_forall in *. intros b Hb.
+    apply Himp; [left; reflexivity|right; exact Hb|exact (Hf b Hb)|]. intro E. subst. contradiction.
+Qed.
+
+Lemma spec_sort_strict : forall (A : Type) (m : list (ustring * A)),
+  NoDup (map fst m) -> Forall key_scalar m -> keys_sorted (map fst (sort_members_spec m)).
+Proof.
+  intros A m Hn Hs. unfold keys_sorted.
+  apply (StronglySorted_strengthen _ (fun a b => units_le (utf16 a) (utf16 b))).
+  - apply spec_sort_ordered.
+  - eapply Permutation_NoDup; [apply Permutation_map, Permutation_sym, spec_sort_perm|exact Hn].
+  - intros a b Ha Hb Hle Hne. unfold units_le, units_lt in *.
+    destruct (ustr_compare (utf16 a) (utf16 b)) eqn:C; [|reflexivity|contradiction].
+    exfalso. apply Hne. apply ucmp_eq in C.
+    assert (Sa : forall k, In k (map fst (sort_members_spec m)) -> Forall scalar k).
+    { intros k Hk. apply in_map_iff in Hk. destruct Hk as [kv [E Hin]]. subst k.
+      apply (proj1 (spec_sort_In _ _ _)) in Hin. rewrite Forall_forall in Hs. exact (Hs kv Hin). }
+    apply utf16_inj; auto.
+Qed.
+
+Lemma canon_sorted_strict_proof : forall v, nodup_keys v -> keys_scalar v -> deep_sorted (sort_deep v).
+Proof.
+  induction v as [|b|z|r|s|l IH|m IH] using jvalue_nested_ind; intros N K; try solve [constructor].
+  - simpl. constructor. rewrite Forall_map. inversion N; subst. inversion K; subst.
+    rewrite Forall_forall in *. intros x Hx. apply IH; auto.
+  - simpl. inversion N as [| | | | | |m0 N1 N2]; subst. inversion K as [| | | | | |m1 K1 K2]; subst.
+    change (map (fun kv : ustring * jvalue => (fst kv, sort_deep (snd kv))) m) with (map (on_snd sort_deep) m).
+    constructor.
+    + apply spec_sort_strict; [rewrite map_fst_on_snd; exact N1|apply key_scalar_map; exact K1].
+    + rewrite Forall_forall in *. intros kv Hkv. apply (proj1 (spec_sort_In _ _ _)) in Hkv.
+      apply in_map_iff in Hkv. destruct Hkv as [kv0 [E Hin]]. subst kv. simpl. apply IH; auto.
+Qed.
